@@ -260,7 +260,8 @@ theorem folderEff_name (n : Node) (op : Op) (G : Folder) : (folderEff n op G).na
   case fsRestoreFolder F =>
     split
     · split
-      · unfold Folder.restore; split <;> rfl
+      · rcases Folder.restoreIn_cases n.folders G with e | e <;> rw [e]
+        unfold Folder.restore; split <;> rfl
       · rfl
     · rfl
   all_goals (first | rfl | ((repeat' split) <;> rfl))
@@ -360,7 +361,8 @@ theorem folderEff_visible (n : Node) (op : Op) (G : Folder) :
     simp only [Bool.false_eq_true, if_false]
     split
     · split
-      · unfold Folder.restore; split <;> rfl
+      · rcases Folder.restoreIn_cases n.folders G with e | e <;> rw [e]
+        unfold Folder.restore; split <;> rfl
       · rfl
     · rfl
   all_goals (simp only [Bool.false_eq_true, if_false]; try ((repeat' split) <;> rfl))
@@ -990,7 +992,12 @@ theorem folderEff_scanCd_running (n : Node) (op : Op) (G : Folder) (h : 1 ≤ G.
   case folder F r =>
     (repeat' split) <;> first | rfl | exact (G.handle_cds r).1 h
   case fsRestoreFolder F =>
-    (repeat' split) <;> first | rfl | (unfold Folder.restore; split <;> rfl)
+    split
+    · split
+      · rcases Folder.restoreIn_cases n.folders G with e | e <;> rw [e]
+        unfold Folder.restore; split <;> rfl
+      · rfl
+    · rfl
   all_goals ((repeat' split) <;> rfl)
 
 theorem folderEff_restoreCd_running (n : Node) (op : Op) (G : Folder) (h : 1 ≤ G.restoreCd) :
@@ -1014,7 +1021,12 @@ theorem folderEff_restoreCd_running (n : Node) (op : Op) (G : Folder) (h : 1 ≤
   case folder F r =>
     (repeat' split) <;> first | rfl | exact (G.handle_cds r).2 h
   case fsRestoreFolder F =>
-    (repeat' split) <;> first | rfl | (unfold Folder.restore; split <;> first | rfl | omega)
+    split
+    · split
+      · rcases Folder.restoreIn_cases n.folders G with e | e <;> rw [e]
+        unfold Folder.restore; split <;> first | rfl | omega
+      · rfl
+    · rfl
   all_goals ((repeat' split) <;> rfl)
 
 /-- generic countdown argument shared by folder scan and folder restore -/
@@ -1162,16 +1174,26 @@ theorem C14_folder_restore_completes_on_time (ops : List Op) (n : Node) (j : Nat
       by_cases h2 : G'.scanCd = 1 <;> by_cases h3 : (n.run ops).powerPhase.scanCd = 1 <;>
         simp only [h2, h3, if_true, if_false] <;> apply hr <;> simp
 
-/-- A `restore` request (folder route or file-system route) loads `max(restore_duration, 1)` and marks the folder
-RESTORING — unless a restore is already running, in which case the countdown is left alone. -/
+/-- A `restore` request (folder route; or file-system route, which reaches the live folder of that name, else the first deleted one
+in deletion order) loads `max(restore_duration, 1)` and marks the folder RESTORING — unless a restore is already running, in
+which case the countdown is left alone. -/
 theorem C14_folder_restore_request (n : Node) (F : String) (G : Folder) (hon : n.power = .on) (hn : G.name = F) :
-    (folderEff n (.fsRestoreFolder F) G).restoreCd = (if G.restoreCd ≤ 0 then max G.restoreDur 1 else G.restoreCd) ∧
+    ((G.deleted = false ∨ (hasLiveFolder G.name n.folders = false ∧ firstDeletedFolder n.folders G = true)) →
+      (folderEff n (.fsRestoreFolder F) G).restoreCd = (if G.restoreCd ≤ 0 then max G.restoreDur 1 else G.restoreCd)) ∧
     (G.deleted = false →
       (folderEff n (.folder F .restore) G).restoreCd = (if G.restoreCd ≤ 0 then max G.restoreDur 1 else G.restoreCd)) := by
-  simp only [folderEff, Folder.handle, Folder.restore, hon, hn, if_true, true_and]
   constructor
-  · split <;> rfl
-  · intro hd; simp only [hd, if_true]; split <;> rfl
+  · intro hreach
+    have hr : Folder.restoreIn n.folders G = G.restore := by
+      unfold Folder.restoreIn
+      rcases hreach with hd | ⟨h1, h2⟩
+      · simp [hd]
+      · simp [h1, h2]
+    simp only [folderEff, hon, hn, if_true, hr, Folder.restore]
+    split <;> rfl
+  · intro hd
+    simp only [folderEff, Folder.handle, Folder.restore, hon, hn, if_true, true_and, hd]
+    split <;> rfl
 
 
 /-! ## 6. timing: the whole-node scan fans out after exactly `max(1, node_scan_duration)` timesteps of a powered-on node -/
